@@ -129,6 +129,40 @@ pub fn race_block() -> impl Strategy<Value = Vec<GenStep>> {
     })
 }
 
+/// many requests back to back, each inside the 100 ms window of the previous reply
+pub fn burst_block() -> impl Strategy<Value = Vec<GenStep>> {
+    (prop_oneof![Just(5usize), Just(31), Just(33), Just(34), Just(35), Just(40), Just(70)], 0..3u8, prop::collection::vec(reply_spec(), 1..3usize), prop_oneof![Just(0u64), Just(50), Just(99)]).prop_map(
+        |(n, caller, replies, gap)| {
+            let mut v = Vec::new();
+            for _ in 0..n {
+                v.push(GenStep::Issue { caller, kind: 0, replies: replies[..1].to_vec() });
+                if gap > 0 {
+                    v.push(GenStep::Plain(Step::Advance(gap)));
+                }
+            }
+            v
+        },
+    )
+}
+
+/// a reply that takes very long (reply bytes withheld across a big clock jump)
+pub fn slow_reply_block() -> impl Strategy<Value = Vec<GenStep>> {
+    (issue(3), prop_oneof![Just(4_000u64), Just(6_000), Just(29_000), Just(31_000), Just(61_000), Just(3_600_000)], prop::option::of(release()), prop::option::of(issue(3))).prop_map(
+        |(iss, wait, partial, second)| {
+            let mut v = vec![GenStep::Plain(Step::Hold), iss];
+            if let Some(p) = partial {
+                v.push(GenStep::Plain(p));
+            }
+            if let Some(s) = second {
+                v.push(s);
+            }
+            v.push(GenStep::Plain(Step::Advance(wait)));
+            v.push(GenStep::Plain(Step::ReleaseAll));
+            v
+        },
+    )
+}
+
 pub fn assemble(sched_seed: u64, seg: SegPattern, max_write: Option<usize>, gen: Vec<GenStep>) -> Script {
     fn conv(g: GenStep, k: &mut usize, replies: &mut Vec<(String, ReplySpec)>) -> Step {
         match g {
@@ -162,7 +196,15 @@ pub fn script(change_weight: u32, max_names: usize, max_steps: usize) -> impl St
         any::<u64>(),
         seg_pattern(),
         prop_oneof![4 => Just(None), 1 => (1..12usize).prop_map(Some)],
-        prop::collection::vec(prop_oneof![8 => gen_step(change_weight, max_names).prop_map(|s| vec![s]), 1 => race_block()], 1..=max_steps),
+        prop::collection::vec(
+            prop_oneof![
+                24 => gen_step(change_weight, max_names).prop_map(|s| vec![s]),
+                3 => race_block(),
+                1 => burst_block(),
+                2 => slow_reply_block(),
+            ],
+            1..=max_steps,
+        ),
     )
         .prop_map(|(seed, seg, max_write, blocks)| assemble(seed, seg, max_write, blocks.concat()))
 }
